@@ -15,7 +15,8 @@ from ..common import Result, Violation, call_repo
 ID = 'C17'
 LEVEL = 'exploration'
 ENGINE = 'hypothesis + exhaustive grid'
-RULE = ('cases are (n, s, numeric type of s); grid n=1..40 x 60 skews enumerated, the '
+RULE = ('kind pipeline (4%): a Generator(args) run whose weight vectors handed to '
+        'numpy.random.choice are captured and checked; otherwise cases are (n, s, numeric type of s); grid n=1..40 x 60 skews enumerated, the '
         'rest drawn (n up to 300/2000, s log-uniform in [1e-6,1e6], near-1 values, '
         'integers); non-trivial = n >= 3 and s != 1; distinct = distinct (n, s, type)')
 ASSUMPTIONS = [
@@ -58,48 +59,108 @@ def _case(draw, nmax):
     return {'n': n, 's': s, 'typ': 'int' if isinstance(s, int) else 'float'}
 
 
+@st.composite
+def _mixed(draw, nmax):
+    if draw(st.sampled_from(range(100))) < 4:
+        # the weights actually handed to numpy.random.choice during a generator run
+        from .. import genargs
+        v = draw(genargs.legal_vectors(nmax=(6, 12, 4), numinst_max=1))
+        kind = draw(st.sampled_from(['given', 'given', 'given', 'default']))
+        if kind == 'given':
+            v['skew'] = draw(st.sampled_from([1.0, 2.0, 3.5, 10.0, 0.5, 0.1, 25.0, 1000.0]))
+        else:
+            v.pop('skew', None)
+        return {'kind': 'pipeline', 'v': v}
+    return draw(_case(nmax))
+
+
 def strategy(tier):
-    return _case(300 if tier == 'quick' else 2000)
+    return _mixed(300 if tier == 'quick' else 2000)
+
+
+def check_weights(w, n, s, where):
+    """The laws of the property on a weight vector."""
+    try:
+        w = [float(x) for x in w]
+    except Exception as e:
+        raise Violation('shape', '%s: not a sequence of numbers: %r (%s)' % (where, w, e))
+    if len(w) != n:
+        raise Violation('shape', '%s: n=%d but %d weights' % (where, n, len(w)))
+    if any((not math.isfinite(x)) or x <= 0 for x in w):
+        raise Violation('positive', '%s: n=%d s=%r weights not all positive/finite: %r'
+                        % (where, n, s, w[:5]))
+    tot = math.fsum(w)
+    if abs(tot - 1.0) > TOL:
+        raise Violation('sum', '%s: n=%d s=%r weights sum to %r' % (where, n, s, tot))
+    if n == 1:
+        if abs(w[0] - 1.0) > TOL:
+            raise Violation('single', '%s: single agent gets weight %r' % (where, w[0]))
+        return w
+    wmax = max(w)
+    ratio = w[-1] / w[0]
+    if abs(ratio - s) > TOL * max(1.0, abs(s)) * 10:
+        raise Violation('ratio', '%s: n=%d s=%r last/first=%r' % (where, n, s, ratio))
+    d = (w[-1] - w[0]) / (n - 1)
+    for i in range(n):
+        if abs(w[i] - (w[0] + i * d)) > TOL * wmax:
+            raise Violation('arithmetic', '%s: n=%d s=%r: w[%d]=%r is off the line through the '
+                            'end points (%r)' % (where, n, s, i, w[i], w[0] + i * d))
+    a = 2.0 / (n * (1.0 + s))
+    if abs(w[0] - a) > TOL * wmax * 10:
+        raise Violation('closed_form', '%s: n=%d s=%r first weight %r, expected %r'
+                        % (where, n, s, w[0], a))
+    if s >= 1 and any(w[i + 1] < w[i] - TOL * wmax for i in range(n - 1)):
+        raise Violation('monotone', '%s: n=%d s=%r >= 1 but weights decrease' % (where, n, s))
+    if s <= 1 and any(w[i + 1] > w[i] + TOL * wmax for i in range(n - 1)):
+        raise Violation('monotone', '%s: n=%d s=%r <= 1 but weights increase' % (where, n, s))
+    return w
+
+
+def run_pipeline(case):
+    """Generator(args): every weight vector handed to numpy.random.choice for drawing a
+    preference list must be the linear distribution for (number of rankable agents, skew)."""
+    import numpy as np
+    from .. import genargs
+    v = case['v']
+    n2 = v['n1'] if v['mp'] == 'sm' else v['n2']
+    s = float(v.get('skew', 1.0))
+    seen = []
+    orig = np.random.choice
+
+    def spy(a, size=None, replace=True, p=None):
+        if replace is False:
+            seen.append((len(a), None if p is None else [float(x) for x in p]))
+        return orig(a, size, replace, p)
+    np.random.choice = spy
+    try:
+        outdir = genargs.fresh_outdir()
+        status, code, err = genargs.run_generator(genargs.build_argv(v, outdir), v['seed'])
+    finally:
+        np.random.choice = orig
+    if status != 'ok':
+        return Result(False, ['pipeline', 'skipped:rejected'])
+    if len(seen) != v['n1'] * v['numinst']:
+        raise Violation('pipeline_draws', '%d preference lists requested, %d weighted draws '
+                        'without replacement observed' % (v['n1'] * v['numinst'], len(seen)))
+    for na, p in seen:
+        if p is None:
+            raise Violation('pipeline_unweighted', 'preference list drawn without popularity '
+                            'weights (skew %r)' % s)
+        check_weights(p, n2, s, 'weights used by Generator(-mp %s -skew %r)' % (v['mp'], s))
+    return Result(n2 >= 3 and s != 1, ['pipeline', 'mp=' + v['mp'],
+                                       'skew_given' if 'skew' in v else 'skew_default'])
 
 
 def run_case(case):
+    if case.get('kind') == 'pipeline':
+        return run_pipeline(case)
     from matchingproblems.generator import generator_shared as gs
     n, s = case['n'], case['s']
     s = int(s) if case['typ'] == 'int' else float(s)
     w = call_repo('create_linear_distribution', gs.create_linear_distribution, n, s)
-    try:
-        w = [float(x) for x in w]
-    except Exception as e:
-        raise Violation('shape', 'result is not a sequence of numbers: %r (%s)' % (w, e))
-    if len(w) != n:
-        raise Violation('shape', 'n=%d but %d weights' % (n, len(w)))
-    if any((not math.isfinite(x)) or x <= 0 for x in w):
-        raise Violation('positive', 'n=%d s=%r weights not all positive/finite: %r'
-                        % (n, s, w[:5]))
-    tot = math.fsum(w)
-    if abs(tot - 1.0) > TOL:
-        raise Violation('sum', 'n=%d s=%r weights sum to %r' % (n, s, tot))
+    check_weights(w, n, s, 'create_linear_distribution')
     if n == 1:
-        if abs(w[0] - 1.0) > TOL:
-            raise Violation('single', 'single agent gets weight %r' % w[0])
         return Result(False, ['n=1'])
-    wmax = max(w)
-    ratio = w[-1] / w[0]
-    if abs(ratio - s) > TOL * max(1.0, abs(s)) * 10:
-        raise Violation('ratio', 'n=%d s=%r last/first=%r' % (n, s, ratio))
-    d = (w[-1] - w[0]) / (n - 1)
-    for i in range(n):
-        if abs(w[i] - (w[0] + i * d)) > TOL * wmax:
-            raise Violation('arithmetic', 'n=%d s=%r: w[%d]=%r is off the line through the '
-                            'end points (%r)' % (n, s, i, w[i], w[0] + i * d))
-    # closed form (sum of an arithmetic progression with first a, last a*s is n*a*(1+s)/2)
-    a = 2.0 / (n * (1.0 + s))
-    if abs(w[0] - a) > TOL * wmax * 10:
-        raise Violation('closed_form', 'n=%d s=%r first weight %r, expected %r' % (n, s, w[0], a))
-    if s >= 1 and any(w[i + 1] < w[i] - TOL * wmax for i in range(n - 1)):
-        raise Violation('monotone', 'n=%d s=%r >= 1 but weights decrease' % (n, s))
-    if s <= 1 and any(w[i + 1] > w[i] + TOL * wmax for i in range(n - 1)):
-        raise Violation('monotone', 'n=%d s=%r <= 1 but weights increase' % (n, s))
     labels = ['s>1' if s > 1 else ('s<1' if s < 1 else 's=1'), case['typ'],
               'n<=12' if n <= 12 else 'n>12']
     return Result(n >= 3 and s != 1, labels)
